@@ -32,6 +32,22 @@ class langs:
         LANGS = self.saved
 
 
+class rows:
+    """context manager: run the grid with other element names (e.g. names containing column keywords)"""
+
+    def __init__(self, alt):
+        self.alt = list(alt)
+
+    def __enter__(self):
+        global ROWS
+        self.saved = ROWS
+        ROWS = self.alt
+
+    def __exit__(self, *a):
+        global ROWS
+        ROWS = self.saved
+
+
 def cells(core=False):
     cols = CORE_COLS if core else COLS
     ccols = CCORE if core else CCOLS
